@@ -24,9 +24,13 @@ func c07Patch(g *GcsEmu, conds cloudstorage.Conditions, ctype string) int {
 func H_C07_writers() {
 	g := vNewEmu()
 	n := vBound("writers", 2, 3)
-	kind := vChoice("kind", 0, 4)
+	kind := vChoice("kind", 0, 5)
 	var base *storage.Object
-	if kind != 1 {
+	if kind == 5 {
+		n = 2
+		vPut(g, "b", "src", []byte("S"))
+	}
+	if kind != 1 && kind != 5 {
 		base = vPut(g, "b", "o", []byte("base"))
 	}
 	codes := make([]int, n)
@@ -46,6 +50,21 @@ func H_C07_writers() {
 				codes[i] = c07Patch(g, cloudstorage.Conditions{MetagenerationMatch: base.Metageneration}, "text/"+string(content))
 			case 3: // unconditional patches: no update is lost
 				codes[i] = c07Patch(g, emptyConds, "text/"+string(content))
+			case 5: // an upload and a compose, both conditioned on non-existence of the destination
+				if i == 0 {
+					_, errs[i] = g.finishUpload(vCtx(), dontNeedUrls, &storage.Object{Bucket: "b", Name: "o"}, content, "b",
+						cloudstorage.Conditions{DoesNotExist: true})
+				} else {
+					w := vNewRecorder()
+					r := &http.Request{Body: &vBody{decode: func(v interface{}) error {
+						req := v.(*storage.ComposeRequest)
+						req.Destination = &storage.Object{}
+						req.SourceObjects = []*storage.ComposeRequestSourceObjects{{Name: "src"}}
+						return nil
+					}}}
+					g.handleGcsCompose(vCtx(), dontNeedUrls, w, r, "b", "o/compose", cloudstorage.Conditions{DoesNotExist: true})
+					codes[i] = w.code
+				}
 			case 4: // deletes conditioned on the same generation
 				w := vNewRecorder()
 				g.handleGcsDelete(vCtx(), w, "b", "o", cloudstorage.Conditions{GenerationMatch: base.Generation})
@@ -93,6 +112,17 @@ func H_C07_writers() {
 			vAssert(codes[i] == http.StatusOK, "patch-ok")
 		}
 		vAssert(st.metagen == base.Metageneration+int64(n), "no-lost-update: metageneration raised once per patch")
+	case 5:
+		wins := 0
+		if errs[0] == nil {
+			wins++
+		}
+		if codes[1] == http.StatusOK {
+			wins++
+		} else {
+			vAssert(codes[1] == http.StatusPreconditionFailed, "losing-compose-412")
+		}
+		vAssert(wins == 1, "upload-and-compose-on-non-existence: exactly one succeeds")
 	case 4:
 		wins := 0
 		for i := 0; i < n; i++ {
@@ -107,7 +137,9 @@ func H_C07_writers() {
 		if rmeta.Generation == 0 {
 			vAssert(false, "reader-generation")
 		}
-		if base != nil && rmeta.Generation == base.Generation {
+		if kind == 5 {
+			vAssert(len(rdata) == 1, "reader-sees-content-of-its-generation")
+		} else if base != nil && rmeta.Generation == base.Generation {
 			vAssert(string(rdata) == "base", "reader-sees-content-of-its-generation")
 		} else {
 			vAssert(len(rdata) == 1, "reader-sees-content-of-its-generation")
